@@ -351,6 +351,9 @@ func OpenFile(name string, flag int, perm FileMode) (*File, error) {
 	}
 	parent, leaf, n, err := f.walk(p)
 	if err != nil {
+		if flag&O_CREATE != 0 {
+			f.Fired["open:ENOENT(directory gone)"]++
+		}
 		return nil, &PathError{Op: "open", Path: name, Err: err}
 	}
 	if n == nil {
@@ -765,7 +768,10 @@ func Stat(name string) (FileInfo, error) {
 		return nil, &PathError{Op: "stat", Path: name, Err: r.Err}
 	}
 	_, _, n, err := f.walk(p)
-	if err != nil || n == nil {
+	if err != nil {
+		return nil, &PathError{Op: "stat", Path: name, Err: err}
+	}
+	if n == nil {
 		return nil, &PathError{Op: "stat", Path: name, Err: syscall.ENOENT}
 	}
 	return infoOf(path.Base(p), n), nil
@@ -783,7 +789,10 @@ func Remove(name string) error {
 		return &PathError{Op: "remove", Path: name, Err: r.Err}
 	}
 	parent, leaf, n, err := f.walk(p)
-	if err != nil || n == nil || parent == nil {
+	if err != nil {
+		return &PathError{Op: "remove", Path: name, Err: err}
+	}
+	if n == nil || parent == nil {
 		return &PathError{Op: "remove", Path: name, Err: syscall.ENOENT}
 	}
 	if n.dir && len(n.children) > 0 {
@@ -968,12 +977,27 @@ func (f *FS) Rename(oldp, newp string) error {
 	defer f.mu.Unlock()
 	op, np := f.clean(oldp), f.clean(newp)
 	oparent, oleaf, n, err := f.walk(op)
-	if err != nil || n == nil || oparent == nil {
+	if err != nil {
+		return &LinkError{Op: "rename", Old: oldp, New: newp, Err: err}
+	}
+	if n == nil || oparent == nil {
 		return &LinkError{Op: "rename", Old: oldp, New: newp, Err: syscall.ENOENT}
 	}
-	nparent, nleaf, _, err := f.walk(np)
-	if err != nil || nparent == nil {
+	nparent, nleaf, target, err := f.walk(np)
+	if err != nil {
+		return &LinkError{Op: "rename", Old: oldp, New: newp, Err: err}
+	}
+	if nparent == nil {
 		return &LinkError{Op: "rename", Old: oldp, New: newp, Err: syscall.ENOENT}
+	}
+	if target != nil && target != n { // POSIX rename(2) over an existing entry
+		switch {
+		case target.dir: // os.Rename refuses to replace a directory
+			return &LinkError{Op: "rename", Old: oldp, New: newp, Err: syscall.EEXIST}
+		case n.dir && !target.dir:
+			return &LinkError{Op: "rename", Old: oldp, New: newp, Err: syscall.ENOTDIR}
+		}
+		target.nlink--
 	}
 	delete(oparent.children, oleaf)
 	nparent.children[nleaf] = n
